@@ -304,7 +304,11 @@ class AlignmentAffine(HomogFamilyAlignment, Affine):
         HomogFamilyAlignment.__init__(self, source, target)
         # now, the Affine
         optimal_h = self._build_alignment_h_matrix(source, target)
-        Affine.__init__(self, optimal_h, copy=False, skip_checks=True)
+        # set the matrix directly - going through self._set_h_matrix would
+        # re-derive the target from the fitted transform and so replace the
+        # target we were given by the aligned source
+        self._h_matrix = None
+        Affine._set_h_matrix(self, optimal_h, copy=False, skip_checks=True)
 
     @staticmethod
     def _build_alignment_h_matrix(source, target):
